@@ -142,7 +142,7 @@ Definition model_file (c : case) (f : fplan) : fobs :=
      fo_td := restrict_td (option_map fst (k_tdkeys c)) (c_td fc);
      fo_ifaces := map (model_iface c) (f_mocks f) |}.
 
-Definition model_show (c : case) : outcome := initialize (k_disc c) (case_tree c).
+Definition model_show (c : case) : outcome := initialize (case_rx c) (k_disc c) (case_tree c).
 
 (* an interface listed in the configuration that the source package does not declare:
    "interface not found in source", exit status 1 after the files were written *)
@@ -151,7 +151,7 @@ Definition missing_listed (c : case) : bool :=
                             (pc_ifaces (snd e))) (k_pkgs c).
 
 Definition model_gen (c : case) : gobs :=
-  match run_config (k_disc c) (case_tree c) with
+  match run_config (case_rx c) (k_disc c) (case_tree c) with
   | Panic => GErr
   | Ok t2 =>
     match t_pkgs t2 with
